@@ -46,6 +46,11 @@ type c13Case struct {
 	// its metadata is zz-first: 1). The later option is the one in force (as with grpc-go); whatever is done
 	// with the earlier one, a credential that requires transport security never crosses plain http.
 	First string `json:",omitempty"`
+	// FwdCred: the credential's metadata includes x-forwarded-for
+	FwdCred bool `json:",omitempty"`
+	// ReusePeer: the peer.Peer variables given to grpc.Peer were filled by an earlier call over another
+	// (TLS) connection; the option reports this call's peer, nothing of the previous one
+	ReusePeer bool `json:",omitempty"`
 }
 
 type testCreds struct {
@@ -66,14 +71,16 @@ func (c *testCreds) RequireTransportSecurity() bool { return c.secure }
 
 // switchHandler lets long-lived test servers serve one case at a time.
 type switchHandler struct {
-	mu sync.RWMutex
-	h  http.Handler
+	mu     sync.RWMutex
+	h      http.Handler
+	remote string // r.RemoteAddr of the last request: what the connection really is
 }
 
 func (s *switchHandler) ServeHTTP(w http.ResponseWriter, r *http.Request) {
-	s.mu.RLock()
+	s.mu.Lock()
 	h := s.h
-	s.mu.RUnlock()
+	s.remote = r.RemoteAddr
+	s.mu.Unlock()
 	if h == nil {
 		http.Error(w, "no case active", 503)
 		return
@@ -212,6 +219,9 @@ func propC13(c c13Case) *Outcome {
 	}
 	peers := make([]peer.Peer, c.PeerOpt)
 	for i := range peers {
+		if c.ReusePeer {
+			peers[i] = peer.Peer{Addr: memAddr("198.51.100.1:443"), AuthInfo: credentials.TLSInfo{CommonAuthInfo: credentials.CommonAuthInfo{SecurityLevel: credentials.PrivacyAndIntegrity}}}
+		}
 		opts = append(opts, grpc.Peer(&peers[i]))
 	}
 	var hdr metadata.MD
@@ -381,6 +391,12 @@ func propC13(c c13Case) *Outcome {
 	if hPeer.Addr.String() == "" {
 		return o.failf("handler peer address empty")
 	}
+	c13Switch.mu.RLock()
+	remote := c13Switch.remote
+	c13Switch.mu.RUnlock()
+	if hPeer.Addr.String() != remote {
+		return o.failf("handler peer address %q, the connection's remote address is %q", hPeer.Addr.String(), remote)
+	}
 	ti, isTLS := hPeer.AuthInfo.(credentials.TLSInfo)
 	if c.TLS && (!isTLS || !ti.State.HandshakeComplete) {
 		return o.failf("https: handler peer AuthInfo = %#v", hPeer.AuthInfo)
@@ -427,6 +443,13 @@ func genC13(t *rapid.T) c13Case {
 	c.HdrOpt = rapid.Bool().Draw(t, "hdropt")
 	c.CallerMD = genMD(t, "caller", 3)
 	c.Append = rapid.Bool().Draw(t, "append")
+	switch rapid.IntRange(0, 7).Draw(t, "forwarded") {
+	case 0:
+		// proxy-style headers are ordinary metadata to this transport: they say nothing about the peer
+		c.CallerMD = append(c.CallerMD, MDPair{K: rapid.SampledFrom([]string{"x-forwarded-for", "x-real-ip", "forwarded"}).Draw(t, "fwdkey"), V: []byte("203.0.113.7")})
+	case 1:
+		c.FwdCred = true
+	}
 	if c.Creds != "none" && rapid.IntRange(0, 3).Draw(t, "first") == 0 {
 		c.First = rapid.SampledFrom([]string{"plain", "secure"}).Draw(t, "firstkind")
 	}
@@ -452,6 +475,12 @@ func genC13(t *rapid.T) c13Case {
 				k = genMDKey(t, "credkey")
 			}
 			c.CredMD[k] = string(genMDValue(t, "credval", strings.HasSuffix(k, "-bin")))
+		}
+		if c.FwdCred {
+			if c.CredMD == nil {
+				c.CredMD = map[string]string{}
+			}
+			c.CredMD["x-forwarded-for"] = "203.0.113.9"
 		}
 	}
 	return c
